@@ -748,3 +748,290 @@ Proof.
     unfold render_filter, filter_inner.
     destruct (f_neg f); repeat (apply Forall_app; split); try assumption; apply Lit; reflexivity.
 Qed.
+
+(* ================= the command words ================= *)
+
+Definition builds (w : bytes) : bool :=
+  forallb (fun c => c <? 256) w && match build w with inr c => beq c w | inl _ => false end.
+
+Lemma builds_ok w : builds w = true -> wf_bytes w /\ build w = inr w.
+Proof.
+  unfold builds. intros H. apply andb_true_iff in H as [W B]. split.
+  - apply Forall_forall. intros x Hin. rewrite forallb_forall in W. specialize (W x Hin). lia.
+  - destruct (build w) as [e|c]; [discriminate|]. apply beq_eq in B. subst c. reflexivity.
+Qed.
+
+(* the RawCommand::new literals found in definitions.rs (regenerated) are exactly the documented
+   words, and each is a command name the builder accepts: a literal the reference does not know,
+   or one the model does not produce, fails here *)
+Lemma source_words_are_documented :
+  forallb (fun w => existsb (beq w) documented_words) predefined_command_words = true /\
+  forallb (fun w => existsb (beq w) predefined_command_words) documented_words = true /\
+  forallb builds documented_words = true.
+Proof. repeat split; vm_compute; reflexivity. Qed.
+
+Lemma spec_word_documented x w ms : spec x = Some (w, ms) -> existsb (beq w) documented_words = true.
+Proof.
+  destruct x; cbn [spec]; intros H; unfold song_word in H; cbv zeta in H;
+    repeat match type of H with
+           | context [match ?v with _ => _ end] => destruct v
+           end;
+    try discriminate; inversion H; subst; try reflexivity.
+Qed.
+
+Lemma model_word_builds x q : model x = Some q -> wf_bytes (fst q) /\ build (fst q) = inr (fst q).
+Proof.
+  intros H. destruct q as [w args].
+  assert (D : exists ms, spec x = Some (w, ms)).
+  { destruct x; cbn [model] in H; cbn [spec];
+      unfold song_word, queue_range_command, play_command, seek_to_command, delete_command, move_command in *; cbv zeta;
+      repeat match type of H with
+             | context [match ?v with _ => _ end] => destruct v
+             end;
+      try discriminate; inversion H; subst;
+      repeat match goal with |- context [match ?v with _ => _ end] => is_var v; destruct v end;
+      eexists; reflexivity. }
+  destruct D as (ms & D). apply spec_word_documented in D.
+  apply existsb_exists in D as (w' & Hin & E). apply beq_eq in E. subst w'.
+  destruct source_words_are_documented as (_ & _ & B). rewrite forallb_forall in B.
+  apply builds_ok. apply B. exact Hin.
+Qed.
+
+(* ================= (e) every string parameter is exactly one token ================= *)
+
+(* what the caller supplies besides numbers: strings (escaped on the way out), tags that are
+   written raw, filters *)
+Inductive input := IStr (s : bytes) | IRawTag (t : tag) | IFilter (f : sfilter).
+
+Definition opt_in {A} (o : option A) (f : A -> list input) : list input :=
+  match o with Some x => f x | None => [] end.
+
+Definition inputs (x : predef) : list input :=
+  match x with
+  | PClearPlaylist s | PDeletePlaylist s | PSaveQueueAsPlaylist s | PSubscribeToChannel s
+  | PUnsubscribeFromChannel s | PGetPlaylist s | PStickerList s => [IStr s]
+  | PListAllInDirectory d => match d with [] => [] | _ => [IStr d] end
+  | PAdd uri _ => [IStr uri]
+  | PFind f sort _ => IFilter f :: opt_in sort (fun t => [IStr (tag_as_str t)])     (* sort.as_str() is escaped *)
+  | PList t f g => IRawTag t :: opt_in f (fun x => [IFilter x]) ++ map IRawTag g
+  | PCount f => [IFilter f]
+  | PCountGroupBy f g => [IFilter f; IRawTag g]
+  | PCountGrouped g f => opt_in f (fun x => [IFilter x]) ++ [IRawTag g]
+  | PRenamePlaylist a z => [IStr a; IStr z]
+  | PLoadPlaylist n _ => [IStr n]
+  | PAddToPlaylist p u _ => [IStr p; IStr u]
+  | PRemoveFromPlaylistPosition p _ | PRemoveFromPlaylistRange p _ _ | PMoveInPlaylist p _ _ => [IStr p]
+  | PAlbumArt u _ | PAlbumArtEmbedded u _ => [IStr u]
+  | PTagTypesDisable l | PTagTypesEnable l => map IRawTag l
+  | PStickerGet u n | PStickerDelete u n => [IStr u; IStr n]
+  | PStickerSet u n v => [IStr u; IStr n; IStr v]
+  | PStickerFind u n flt => [IStr u; IStr n] ++ opt_in flt (fun ov => [IStr (snd ov)])
+  | PUpdate u | PRescan u => opt_in u (fun s => [IStr s])
+  | PSendChannelMessage c m => [IStr c; IStr m]
+  | _ => []
+  end.
+
+(* strings outside C06's recorded class K and without LF/NUL; raw tags made of bytes the unquoted
+   form carries (every named tag is: [named_tags_plain]); filter values without a double quote *)
+Definition input_ok (i : input) : Prop :=
+  match i with
+  | IStr s => str_ok s
+  | IRawTag t => plain (tag_as_str t) = true
+  | IFilter f => filter_ok f
+  end.
+
+Definition user_ok (a : arg) : Prop :=
+  match a with
+  | AStr s => str_ok s
+  | ARaw r => plain r = true
+  | AFilter f => filter_ok f
+  end.
+
+Lemma named_tags_plain : forallb (fun v => plain (tag_name v)) all_tagv = true.
+Proof. vm_compute. reflexivity. Qed.
+
+Definition str_okb (s : bytes) : bool :=
+  forallb (fun c => c <? 256) s && negb (K s) && forallb (fun c => negb (c =? LF) && negb (c =? 0)) s.
+Lemma str_okb_ok s : str_okb s = true -> str_ok s.
+Proof.
+  unfold str_okb. intros H. apply andb_true_iff in H as [H C]. apply andb_true_iff in H as [W HK].
+  split; [|split].
+  - apply Forall_forall. intros x Hin. rewrite forallb_forall in W. specialize (W x Hin). lia.
+  - destruct (K s); [discriminate | reflexivity].
+  - apply Forall_forall. intros x Hin. rewrite forallb_forall in C. specialize (C x Hin). lia.
+Qed.
+
+Lemma digit_plain c : is_digit c = true -> plain_char c = true.
+Proof.
+  unfold is_digit, in_range. intros H. assert (Hc : c < 256) by lia.
+  unfold plain_char. rewrite (should_escape_spec c Hc). unfold valid_unquoted_char, is_ws, DQ, SQ, BS. lia.
+Qed.
+
+Lemma digits_pc s : forallb is_digit s = true -> forallb plain_char s = true.
+Proof.
+  intros H. apply forallb_forall. intros x Hin. rewrite forallb_forall in H. apply digit_plain. auto.
+Qed.
+
+Lemma plain_intro s : s <> [] -> forallb plain_char s = true -> plain s = true.
+Proof. intros Hne H. unfold plain. rewrite H. destruct s; [congruence | reflexivity]. Qed.
+
+Lemma plain_num n : plain (render_dec n) = true.
+Proof. destruct (render_dec_spec n) as (_ & D & Ne). apply plain_intro; [exact Ne | apply digits_pc; exact D]. Qed.
+
+Lemma pc_num n : forallb plain_char (render_dec n) = true.
+Proof. apply digits_pc. apply render_dec_spec. Qed.
+
+Lemma plain_range r : plain (render_range r) = true.
+Proof.
+  unfold render_range. destruct (sr_to r); apply plain_intro;
+    try (intro X; apply app_eq_nil in X as [_ X]; discriminate);
+    rewrite !forallb_app, !pc_num; reflexivity.
+Qed.
+
+Lemma plain_rel p : plain (render_pos_or_rel p) = true.
+Proof.
+  destruct p; cbn [render_pos_or_rel]; [apply plain_num | |]; apply plain_intro; try discriminate;
+    rewrite forallb_app, pc_num; reflexivity.
+Qed.
+
+Lemma pc_duration secs nanos : forallb plain_char (render_duration secs nanos) = true /\ render_duration secs nanos <> [].
+Proof.
+  unfold render_duration, fmt3. split.
+  - remember (div_rne (fst (as_secs_f64 secs nanos) * 1000) (2 ^ snd (as_secs_f64 secs nanos))) as ms.
+    pose proof (N.mod_upper_bound ms 1000 ltac:(lia)) as R. destruct (pad3_spec _ R) as (D & _ & _).
+    rewrite !forallb_app, pc_num. cbn [forallb andb].
+    rewrite (digits_pc _ D). reflexivity.
+  - intro X. apply app_eq_nil in X as [_ X]. discriminate.
+Qed.
+
+Lemma plain_bool (x : bool) : plain (if x then [49] else [48]) = true.
+Proof. destruct x; reflexivity. Qed.
+
+(* the time of seekcur goes through a String: it is plain, hence unchanged by escape_argument and
+   outside K *)
+Lemma plain_str_ok s : plain s = true -> str_ok s.
+Proof.
+  intros H. pose proof (plain_chars s H) as C. split; [|split].
+  - eapply Forall_impl; [|exact C]. simpl. tauto.
+  - unfold K. apply andb_false_iff. right. apply negb_false_iff. unfold unquoted_ok.
+    unfold plain in H. apply andb_true_iff in H as [H1 H2]. rewrite H1. cbn [andb].
+    apply forallb_forall. intros x Hin. rewrite forallb_forall in H2. specialize (H2 x Hin).
+    unfold plain_char in H2. apply andb_true_iff in H2 as [H2 H3]. apply andb_true_iff in H2 as [_ H2].
+    rewrite H2, H3. reflexivity.
+  - eapply Forall_impl; [|exact C]. simpl. tauto.
+Qed.
+
+Lemma good_arg a : user_ok a -> good (arg_rendered a) (arg_token a).
+Proof.
+  destruct a; cbn [user_ok arg_rendered arg_token]; [apply good_str | apply good_plain | apply good_filter].
+Qed.
+
+Theorem tokenize_request name args :
+  wf_bytes name -> build name = inr name -> Forall user_ok args ->
+  exists w, render_request (name, args) = Sent w /\ mpd_tokenize w = Some (name :: map arg_token args).
+Proof.
+  intros Wn Hb Ha.
+  assert (G : Forall2 good (map arg_rendered args) (map arg_token args)).
+  { induction Ha as [|a l Ha _ IH]; cbn [map]; constructor; [apply good_arg; exact Ha | exact IH]. }
+  assert (R : Forall (fun a => Forall (fun x => argument_reject x = false) (arg_rendered a)) args).
+  { eapply Forall_impl; [|exact Ha]. intros a H. apply (good_not_rejected _ (arg_token a)). apply good_arg. exact H. }
+  unfold render_request. cbn [fst snd]. rewrite Hb, (add_args_wire args name R).
+  eexists. split; [reflexivity|]. apply tokenize_items; assumption.
+Qed.
+
+Lemma kw_ok (s : bytes) : str_okb s = true -> user_ok (AStr s).
+Proof. apply str_okb_ok. Qed.
+
+Lemma raw_tags_ok l : Forall input_ok (map IRawTag l) -> Forall user_ok (map tag_arg l).
+Proof. induction l as [|t l IH]; cbn [map]; intros H; inversion H; subst; constructor; auto. Qed.
+
+Lemma groups_ok l : Forall input_ok (map IRawTag l) ->
+  Forall user_ok (flat_map (fun g => [AStr (b "group"); tag_arg g]) l).
+Proof.
+  induction l as [|t l IH]; cbn [map flat_map app]; intros H; inversion H; subst; [constructor|].
+  constructor; [apply kw_ok; reflexivity|]. constructor; auto.
+Qed.
+
+Ltac ok1 :=
+  first [ assumption | apply plain_num | apply plain_range | apply plain_rel | apply plain_bool
+        | (apply kw_ok; reflexivity) ].
+Ltac inv_inputs :=
+  repeat match goal with
+         | H : Forall input_ok (_ :: _) |- _ => inversion H; subst; clear H
+         | H : Forall input_ok [] |- _ => clear H
+         | H : input_ok (IStr _) |- _ => cbn [input_ok] in H
+         | H : input_ok (IFilter _) |- _ => cbn [input_ok] in H
+         | H : input_ok (IRawTag _) |- _ => cbn [input_ok] in H
+         end.
+Ltac ok_all := cbn [app opt_args map]; repeat (apply Forall_cons; [cbn [user_ok num bool_arg tag_arg range_arg]; ok1|]); try apply Forall_nil.
+
+Lemma model_args_ok x q : model x = Some q -> Forall input_ok (inputs x) -> Forall user_ok (snd q).
+Proof.
+  intros H Hin.
+  destruct x; cbn [model] in H; cbn [inputs opt_in app] in Hin;
+    unfold queue_range_command, play_command, seek_to_command, delete_command, move_command in H;
+    repeat match type of H with
+           | context [match ?v with _ => _ end] => destruct v
+           end;
+    try discriminate; inversion H; subst; clear H; cbn [snd opt_in app map] in *; inv_inputs;
+    try (ok_all; fail).
+  - (* SetSingle *) destruct m; constructor; try constructor; apply str_okb_ok; reflexivity.
+  - destruct m; constructor; try constructor; apply str_okb_ok; reflexivity.
+  - (* SeekTo id *) constructor; [apply plain_num|]. constructor; [|constructor].
+    destruct (pc_duration secs nanos). apply plain_intro; assumption.
+  - constructor; [apply plain_num|]. constructor; [|constructor].
+    destruct (pc_duration secs nanos). apply plain_intro; assumption.
+  - (* Seek *) constructor; [|constructor]. cbn [user_ok]. apply plain_str_ok.
+    destruct (pc_duration secs nanos) as [P Ne].
+    destruct m; [| |apply plain_intro; assumption]; apply plain_intro; try discriminate;
+      rewrite forallb_app, P; reflexivity.
+  - (* Add *) unfold add_command. destruct pos; cbn [snd opt_in app map] in *; inv_inputs; ok_all.
+  - (* Find *) unfold find_command. destruct sort, window; cbn [snd opt_in app map option_map] in *; inv_inputs; ok_all.
+  - (* List *) unfold list_command. cbn [snd].
+    match goal with Hr : Forall input_ok (_ ++ _) |- _ => apply Forall_app in Hr as [Hf Hg] end.
+    constructor; [cbn [user_ok tag_arg]; assumption|]. apply Forall_app. split; [|apply groups_ok; exact Hg].
+    destruct f; cbn [opt_in opt_args] in *; inv_inputs; ok_all.
+  - (* CountGrouped *) unfold count_grouped_command. destruct f; cbn [snd opt_in app map] in *; inv_inputs; ok_all.
+  - (* Load *) unfold load_playlist_command. destruct r; cbn [snd opt_in app map option_map] in *; inv_inputs; ok_all.
+  - (* AddToPlaylist *) unfold add_to_playlist_command. destruct pos; cbn [snd opt_in app map] in *; inv_inputs; ok_all.
+  - (* ListAllIn.directory *) unfold list_all_in_command. destruct d; cbn [snd] in *; inv_inputs; ok_all.
+  - (* TagTypes *) cbn [tag_types_command snd map]. constructor; [apply kw_ok; reflexivity|].
+    constructor; [cbn [user_ok tag_arg]; assumption | apply raw_tags_ok; assumption].
+  - cbn [tag_types_command snd map]. constructor; [apply kw_ok; reflexivity|].
+    constructor; [cbn [user_ok tag_arg]; assumption | apply raw_tags_ok; assumption].
+  - (* StickerFind *) unfold sticker_find_command. destruct flt as [[o v]|]; [destruct o|];
+      cbn [snd opt_in app map fst] in *; inv_inputs; ok_all.
+  - unfold update_command. destruct uri; cbn [snd opt_in app map] in *; inv_inputs; ok_all.
+  - unfold rescan_command. destruct uri; cbn [snd opt_in app map] in *; inv_inputs; ok_all.
+Qed.
+
+(* (e) for every constructor path whose strings are outside C06's class K (and LF/NUL-free), whose
+   raw tags are plain and whose filter values hold no double quote: nothing panics, and MPD's
+   tokenizer splits the written line into the command word and exactly one token per argument —
+   each string parameter the very bytes given *)
+Theorem predef_tokenizes x q :
+  model x = Some q -> Forall input_ok (inputs x) ->
+  exists w, run_predef x = Sent w /\ mpd_tokenize w = Some (fst q :: map arg_token (snd q)).
+Proof.
+  intros Hm Hin. unfold run_predef. rewrite Hm.
+  destruct (model_word_builds x q Hm) as [W B]. destruct q as [name args]. cbn [fst snd] in *.
+  apply tokenize_request; [exact W | exact B | apply (model_args_ok x (name, args) Hm Hin)].
+Qed.
+
+(* panics: only the documented ones — a constructor documented to panic, or an argument holding
+   LF/NUL (C07) *)
+Theorem predef_panics_only_documented x :
+  run_predef x = Panic ->
+  spec x = None \/ exists q a, model x = Some q /\ In a (snd q) /\ Exists (fun c => argument_reject c = true) (arg_rendered a).
+Proof.
+  unfold run_predef. intros H. destruct (model x) as [q|] eqn:Hm.
+  - right. destruct (model_word_builds x q Hm) as [_ B]. unfold render_request in H. rewrite B in H.
+    exists q. revert H. generalize (fst q). induction (snd q) as [|a l IH]; intros c H; [discriminate|].
+    cbn [add_args] in H.
+    destruct (add_argument_raw_cases c (arg_rendered a)) as [(i & E & Ex)|(E & _)]; rewrite E in H.
+    + exists a. split; [reflexivity|]. split; [left; reflexivity | exact Ex].
+    + destruct (IH _ H) as (a' & _ & Hin & Ex). exists a'. split; [reflexivity|]. split; [right; exact Hin | exact Ex].
+  - left. pose proof (model_meets_spec x) as M. rewrite Hm in M.
+    assert (D : params_in_domain x) by (destruct x; try exact I; discriminate).
+    specialize (M D). destruct (spec x) as [[w ms]|]; [contradiction | reflexivity].
+Qed.
